@@ -78,7 +78,8 @@ theorem inv_rec_spawn {cfg : Cfg} {s : St} {d : Disk} (h : Inv cfg s d) {r : Rec
   · exact h.disk
   · exact h.mm
   · intro _
-    exact hb.of_same rfl (Nat.le_refl _) hnf0 (fun hr' => by
+    exact hb.of_same rfl (seqHi_le_of_not_window (not_trWindow_of_nojob hjob)
+      (not_trWindow_of_bc (j := j') rfl hbc) (Nat.le_refl _)) hnf0 (fun hr' => by
       have : s.phase = .running := hr'
       rw [hph] at this; cases this)
   · intro hr'
@@ -96,7 +97,23 @@ theorem inv_rec_spawn {cfg : Cfg} {s : St} {d : Disk} (h : Inv cfg s d) {r : Rec
     have : s.phase = .crashed := hc
     rw [hph] at this; cases this
   · show JobOK cfg _ d j'
-    refine ⟨⟨by rw [houts]; exact f1, Or.inl hrmt⟩, hkind, ?_, ⟨?_, fun _ => ?_⟩, ?_, ?_, ?_, hmk, ?_, ?_⟩
+    have hkc : j'.kind ≠ .compaction := by
+      intro hk
+      have hkk := hkind
+      unfold JobKindOK at hkk
+      rw [hk] at hkk
+      have : s.phase = .running := hkk.1
+      rw [hph] at this; cases this
+    refine ⟨⟨by rw [houts]; exact f1, Or.inl hrmt⟩, hkind, ?_, ⟨?_, fun _ => ?_⟩, ?_, ?_, ?_, hmk, ?_, ?_, ?_,
+      (fun hx => by rw [hbc] at hx; cases hx)⟩
+    rotate_right
+    · rw [holds_iff] at he
+      obtain ⟨e, hee, hsh⟩ := he
+      rw [hee]
+      show InputsOK _ d j' e
+      unfold InputsOK
+      rw [if_neg hkc]
+      exact ⟨hsh.1, fun _ => hsh.2.2.2.2.1, hsh.2.2.2.2.2⟩
     · unfold JobManifestOK
       rw [holds_iff] at he
       obtain ⟨e, hee, _⟩ := he
@@ -119,7 +136,7 @@ theorem inv_rec_spawn {cfg : Cfg} {s : St} {d : Disk} (h : Inv cfg s d) {r : Rec
     · rw [holds_iff] at he
       obtain ⟨e, hee, hsh⟩ := he
       rw [hee]
-      exact hsh
+      exact ⟨hsh.2.1, hsh.2.2.1, hsh.2.2.2.1⟩
     · intro i o hio
       unfold OutOK
       rcases htab with ⟨h1, _⟩ | ⟨h1, _⟩
